@@ -97,6 +97,10 @@ func RunWorker(id, tier string, shard, nshards, from int, deadline time.Time, on
 		done.Sub += res.Sub
 		done.Last = idx
 		done.Families[cs.Family]++
+		if res.Poison {
+			stopped = true
+			done.Retired = true
+		}
 		if res.Engine != "" {
 			emitLine("E", map[string]any{"index": idx, "family": cs.Family, "case": cs.Desc(), "error": res.Engine})
 			return
